@@ -39,7 +39,8 @@ def align32N (x : Nat) : Nat := (align32 (x : Int)).toNat
 /-- `ncols` of `BMPWriter.__init__` (table regenerated from the source). -/
 def ncolsOf (bits : Nat) : Option Nat := (ncolsTable.find? (fun p => p.1 == bits)).map (·.2)
 
-def lineSize (bits w : Nat) : Nat := align32N ((w * bits + 7) / 8)
+/-- `self.linesize` (expression regenerated from the source). -/
+def lineSize (bits w : Nat) : Nat := (bmpLinesize (w : Int) (bits : Int)).toNat
 
 /-- Colour table written after the header. -/
 def palette (ncols : Nat) : Bytes :=
@@ -47,16 +48,30 @@ def palette (ncols : Nat) : Bytes :=
   else if ncols = 256 then (List.range 256).flatMap (fun i => [UInt8.ofNat i, UInt8.ofNat i, UInt8.ofNat i, 0])
   else []
 
-/-- The 14-byte file header and the 40-byte BITMAPINFOHEADER. -/
+/-- One `struct.pack` field: (format character, value) → little-endian bytes, or `struct.error`
+    when the value does not fit (`c` 1 byte, `H` 16 bit unsigned, `I` 32 bit unsigned, `i` 32 bit signed). -/
+def packField (f : Nat × Int) : Except Err Bytes :=
+  if f.1 = 99 then (if 0 ≤ f.2 ∧ f.2 < 256 then .ok [UInt8.ofNat f.2.toNat] else .error .structError)
+  else if f.1 = 72 then (if 0 ≤ f.2 ∧ f.2 < 65536 then .ok (le16 f.2.toNat) else .error .structError)
+  else if f.1 = 73 then (if 0 ≤ f.2 ∧ f.2 < 4294967296 then .ok (le32 f.2.toNat) else .error .structError)
+  else if f.1 = 105 then
+    (if -2147483648 ≤ f.2 ∧ f.2 < 2147483648 then .ok (le32 (f.2 % 4294967296).toNat) else .error .structError)
+  else .error .structError
+
+def packAll : List (Nat × Int) → Except Err Bytes
+  | [] => .ok []
+  | f :: fs =>
+    match packField f, packAll fs with
+    | .ok a, .ok b => .ok (a ++ b)
+    | .error e, _ => .error e
+    | _, .error e => .error e
+
+/-- The 14-byte file header and the 40-byte BITMAPINFOHEADER: the field lists of the two
+    `struct.pack` calls are regenerated from the source (Gen/ImageGen.lean). -/
 def bmpHeader (bits w h ncols : Nat) : Except Err Bytes :=
-  let datasize := lineSize bits w * h
-  let headersize := 14 + 40 + ncols * 4
-  if w ≥ 2147483648 ∨ h ≥ 2147483648 ∨ datasize ≥ 4294967296 ∨ headersize + datasize ≥ 4294967296 then
-    .error .structError
-  else
-    .ok ([66, 77] ++ le32 (headersize + datasize) ++ le16 0 ++ le16 0 ++ le32 headersize ++
-         le32 40 ++ le32 w ++ le32 h ++ le16 1 ++ le16 bits ++ le32 0 ++ le32 datasize ++ le32 0 ++ le32 0 ++
-         le32 ncols ++ le32 0)
+  let datasize := bmpDatasize (bmpLinesize (w : Int) (bits : Int)) (h : Int)
+  let headersize := bmpHeadersize (ncols : Int)
+  packAll (bmpFileFields w h bits datasize ncols headersize ++ bmpInfoFields w h bits datasize ncols headersize)
 
 /-- `data[i : i + bpl]` for `i = 0, bpl, 2·bpl, …` (`height` rows). -/
 def rowsOf (bpl : Nat) : Nat → Bytes → List Bytes
@@ -82,26 +97,30 @@ def writeBodyPinned (line : Nat) (rows : List Bytes) : Bytes :=
   | [] => []
   | r0 :: rest => (rest.reverse.map (padRow line)).flatten ++ r0
 
+/-- The file once the palette size is known: header, colour table, pixel area. -/
+def saveBmpWith (ncols bits w h bpl : Nat) (data : Bytes) : Except Err Bytes :=
+  (bmpHeader bits w h ncols).map
+    (fun hdr => hdr ++ palette ncols ++ writeBody bits (lineSize bits w) (rowsOf bpl h data))
+
 /-- `BMPWriter(fp, bits, width, height)` followed by the `write_line` loop of `_save_bmp`. -/
 def saveBmp (bits w h bpl : Nat) (data : Bytes) : Except Err Bytes :=
   match ncolsOf bits with
   | none => .error .value
-  | some ncols =>
-    match bmpHeader bits w h ncols with
-    | .error e => .error e
-    | .ok hdr => .ok (hdr ++ palette ncols ++ writeBody bits (lineSize bits w) (rowsOf bpl h data))
+  | some ncols => saveBmpWith ncols bits w h bpl data
 
 inductive Flt where
   | flate | lzw | a85 | ahx | rl | dct | jpx | jbig2 | ccitt
   deriving DecidableEq, Repr
 
+/-- What `export_image` finds in `LTImage.colorspace` (membership tests, RGB asked before gray). -/
 inductive CS where
   | gray | rgb | cmyk | inlGray | inlRgb | other | none
   deriving DecidableEq, Repr
 
 structure ImgIn where
   filters : List Flt
-  cs : CS
+  cs : CS               -- first of DeviceRGB, RGB, DeviceGray, G that occurs in `image.colorspace`
+  cmykMember : Bool     -- `LITERAL_DEVICE_CMYK in image.colorspace` (only `_save_jpeg` asks this)
   bits : Nat
   w : Nat
   h : Nat
@@ -122,20 +141,22 @@ def rawExt (bits w h : Nat) : Bytes :=
 
 def isRGB (c : CS) : Bool := c == .rgb || c == .inlRgb
 def isGray (c : CS) : Bool := c == .gray || c == .inlGray
-
 /-- `ImageWriter.export_image`: (file name, file content) for an image and a directory listing. -/
 def exportImage (im : ImgIn) (existing : List Bytes) : Except Err (Bytes × Bytes) :=
   if im.filters.getLast? = some .dct then
-    withName existing im.name extJpeg (if im.cs = .cmyk then .error .importError else .ok im.data)
+    withName existing im.name extJpeg (if im.cmykMember then .error .importError else .ok im.data)
   else if im.filters.getLast? = some .jpx then
     withName existing im.name [46, 106, 112, 50] (.error .importError)
   else if im.filters.contains .jbig2 then .error .unmodelled
   else if im.bits = 1 then
-    withName existing im.name extBmp (saveBmp 1 im.w im.h ((im.w + 7) / 8) im.data)
+    withName existing im.name extBmp
+      (saveBmp (bmpDepth0 im.w im.bits).toNat im.w im.h (bmpBpl0 im.w im.bits).toNat im.data)
   else if im.bits = 8 ∧ isRGB im.cs then
-    withName existing im.name extBmp (saveBmp 24 im.w im.h (im.w * 3) im.data)
+    withName existing im.name extBmp
+      (saveBmp (bmpDepth1 im.w im.bits).toNat im.w im.h (bmpBpl1 im.w im.bits).toNat im.data)
   else if im.bits = 8 ∧ isGray im.cs then
-    withName existing im.name extBmp (saveBmp 8 im.w im.h im.w im.data)
+    withName existing im.name extBmp
+      (saveBmp (bmpDepth2 im.w im.bits).toNat im.w im.h (bmpBpl2 im.w im.bits).toNat im.data)
   else if im.filters = [.flate] then
     withName existing im.name extJpeg (.error .importError)
   else
@@ -155,8 +176,7 @@ def saveBmpPinned (bits w h bpl : Nat) (data : Bytes) : Except Err Bytes :=
   match ncolsOf bits with
   | none => .error .value
   | some ncols =>
-    match bmpHeader bits w h ncols with
-    | .error e => .error e
-    | .ok hdr => .ok (hdr ++ palette ncols ++ writeBodyPinned (lineSize bits w) (rowsOf bpl h data))
+    (bmpHeader bits w h ncols).map
+      (fun hdr => hdr ++ palette ncols ++ writeBodyPinned (lineSize bits w) (rowsOf bpl h data))
 
 end PdfVerif.Image
